@@ -1,5 +1,6 @@
 import PyttbModel.Core.Codec
 import PyttbModel.Alg.Presentation
+import PyttbModel.Alg.PresentationRelabel
 open Lean Pyttb Pyttb.Codec Pyttb.Pres
 namespace Pyttb.Driver
 
@@ -14,7 +15,119 @@ def asPair (j : Json) : R (Nat × Nat) := do
   | [a, b] => .ok (a, b)
   | _ => .error "pair expected"
 
+/-! ### relabelling / scaling of the concrete CP-ALS and Tucker-ALS models (exact, at `Rat`) -/
+
+/-- `sqrt` of a rational that is a square of a rational (what the generators feed); otherwise the floor of
+the roots of numerator and denominator (the reply carries the flag `exact`). -/
+def ratSqrt18 (q : Rat) : Rat := if q < 0 then 0 else mkRat (Nat.sqrt q.num.toNat) (Nat.sqrt q.den)
+
+def isRatSquare18 (q : Rat) : Bool :=
+  decide (0 ≤ q) && Nat.sqrt q.num.toNat * Nat.sqrt q.num.toNat == q.num.toNat && Nat.sqrt q.den * Nat.sqrt q.den == q.den
+
+def ratOps18 : CpAls.NumOps Rat :=
+  { sqrt := ratSqrt18, abs := fun a => if a < 0 then -a else a, lt := fun a b => decide (a < b),
+    isZero := fun a => decide (a = 0), ofNat := fun n => (n : Rat) }
+
+/-- `arrange()` then, when requested, `fixsigns()` (the clean-up of `cp_als`). -/
+def cleanup18 (fix : Bool) (K : Ktensor Rat) : Ktensor Rat :=
+  let M1 := CpAls.arrange ratOps18 K
+  if fix then CpAls.fixsigns ratOps18 M1 else M1
+
+/-- every column of every factor has a rational 2-norm -/
+def colsExact18 (K : Ktensor Rat) : Bool :=
+  K.factors.all fun A => (List.range K.weights.length).all fun r =>
+    isRatSquare18 (CpAls.sumL ((CpAls.col A A.length r).map fun x => x * x))
+
+/-- a data object of which only the shape is used (option validation) -/
+def shapeOnly18 (shape : List Nat) : CpAls.Data Rat :=
+  { shape := shape, norm := 0, mttkrp := fun _ _ => [], innerprod := fun _ => 0, nvecs := none }
+
+def optNats18 (j : Json) (k : String) : R (Option (List Nat)) :=
+  match fieldOpt j k with
+  | none => .ok none
+  | some v => if v.isNull then .ok none else do let l ← asNats v; .ok (some l)
+
+def setupJ18 : Except Reject (List Nat × List Nat × List Nat × Ktensor Rat) → Json
+  | .error _ => rejectJ
+  | .ok (di, od, dims, _) => Json.mkObj [("dimorder", natsJ di), ("optdims", natsJ od), ("dims", natsJ dims)]
+
+def optNatsJ18 : Option (List Nat) → Json
+  | none => Json.null
+  | some l => natsJ l
+
 def ops18 : List (String × Op) := [
+  -- the clean-up of cp_als on a model and on its relabelling; what the property expects; the parity condition
+  ("c18_relabel_cleanup", fun j => do
+    let K ← field j "K" >>= asKtensor
+    let p ← field j "p" >>= asNats
+    let fix ← field j "fixsigns" >>= asBool
+    let M1 := CpAls.arrange ratOps18 K
+    .ok (Json.mkObj [("base", ktensorJ (cleanup18 fix K)),
+                     ("relabelled", ktensorJ (cleanup18 fix (CpAls.relabelK p K))),
+                     ("expected", ktensorJ (CpAls.relabelK p (cleanup18 fix K))),
+                     ("parity", Json.bool (CpAls.parityOK ratOps18 M1)),
+                     ("neg_counts", natsJ ((List.range K.weights.length).map fun r => (CpAls.negModes ratOps18 M1 r).length)),
+                     ("exact", Json.bool (colsExact18 K))])),
+  -- the option validation of cp_als for a problem and for its relabelling
+  ("c18_relabel_setup", fun j => do
+    let shape ← field j "shape" >>= asNats
+    let rank ← field j "rank" >>= asNat
+    let p ← field j "p" >>= asNats
+    let dimorder ← optNats18 j "dimorder"
+    let optdims ← optNats18 j "optdims"
+    let P : CpAls.Params Rat :=
+      { rank := rank, stoptol := 0, maxiters := 1, dimorder := dimorder, optdims := optdims, printing := false, fixsigns := false }
+    let K : Ktensor Rat := ⟨List.replicate rank 1, shape.map fun s => CpAls.tab s rank fun _ _ => (0 : Rat)⟩
+    let P' := CpAls.relabelParams p shape.length P
+    let base := CpAls.setup (shapeOnly18 shape) P (.given K)
+    let second := CpAls.setup (shapeOnly18 (gather shape p)) P' (CpAls.relabelInit p (.given K))
+    let expected : Json := match base with
+      | .error _ => rejectJ
+      | .ok (di, od, dims, _) => Json.mkObj [("dimorder", natsJ (CpAls.qmap p di)),
+          ("optdims", natsJ (CpAls.relabelOd p optdims od)), ("dims", natsJ (CpAls.qmap p dims))]
+    .ok (Json.mkObj [("base", setupJ18 base), ("second", setupJ18 second), ("expected", expected),
+                     ("second_dimorder", optNatsJ18 P'.dimorder), ("second_optdims", optNatsJ18 P'.optdims),
+                     ("second_shape", natsJ (gather shape p))])),
+  -- the arguments of the second run of tucker_als / hosvd: rank vector gathered by p, dimorder mapped through invPerm p
+  ("c18_relabel_args", fun j => do
+    let n ← field j "ndims" >>= asNat
+    let p ← field j "p" >>= asNats
+    let ranks ← optNats18 j "ranks"
+    let dimorder ← optNats18 j "dimorder"
+    .ok (Json.mkObj [("ranks", optNatsJ18 (ranks.map fun r => gather (Tk.parseRank r n) p)),
+                     ("dimorder", natsJ (CpAls.qmap p (Tk.modeOrder dimorder n))),
+                     ("shape_of", natsJ (gather (List.range n) p))])),
+  -- HOSVD / Tucker-ALS under relabelling: the permuted array, one mode product and the Gram matrix of an unfolding
+  ("c18_relabel_ttm", fun j => do
+    let X ← field j "X" >>= asDense
+    let p ← field j "p" >>= asNats
+    let U ← field j "U" >>= asRatMat
+    let k ← field j "k" >>= asNat
+    let tr ← field j "transpose" >>= asBool
+    let dJ : Except Reject (Dense Rat) → Json := exceptJ denseJ
+    let Xp := Tk.permuteD p X
+    let pk := p.getD k 0
+    .ok (Json.mkObj [("permuted", denseJ Xp),
+                     ("ttm_perm", dJ (Tk.ttm Xp U k tr)),
+                     ("ttm_expected", dJ ((Tk.ttm X U pk tr).map (Tk.permuteD p))),
+                     ("gram_perm", ratMatJ (Tk.gramMode Xp k)),
+                     ("gram", ratMatJ (Tk.gramMode X pk))])),
+  -- Tucker-ALS: the projection on all factors but one and the Gram matrix of its unfolding, for X and c X
+  ("c18_scale_ttm", fun j => do
+    let X ← field j "X" >>= asDense
+    let U ← field j "U" >>= asList asRatMat
+    let n ← field j "n" >>= asNat
+    let c ← field j "c" >>= asRat
+    let dJ : Except Reject (Dense Rat) → Json := exceptJ denseJ
+    let base := Tk.ttmExcl X U n true
+    let scaled := Tk.ttmExcl (Tk.dscale c X) U n true
+    let grams : Json := match base with
+      | .error _ => rejectJ
+      | .ok Ut => Json.mkObj [("gram", ratMatJ (Tk.gramMode Ut n)),
+          ("gram_scaled", ratMatJ (Tk.gramMode (Tk.dscale c Ut) n)),
+          ("gram_expected", ratMatJ (Tk.mscale (c * c) (Tk.gramMode Ut n)))]
+    .ok (Json.mkObj [("ttm", dJ base), ("ttm_scaled", dJ scaled), ("ttm_expected", dJ (base.map (Tk.dscale c))),
+                     ("grams", grams)])),
   -- np.random.uniform(0,1,(r,c)) calls in order, fed with the flat draw sequence
   ("c18_draw_mats", fun j => do
     let dims ← field j "dims" >>= asList asPair
